@@ -118,7 +118,10 @@ pub fn for_property(prop: &str) -> Vec<Family> {
             f("try", "try_sync racing every other operation kind and their completion paths", g_try, Q * 3 / 4, T * 3 / 4),
             f("mix-kick", "sync/try_sync callers and wakers racing with pool threads going dormant", g_kick, Q / 4, T / 4),
         ],
-        "C13" => vec![f("suspend", "suspend, later scheduling calls, resume or drop of the resumer from any thread", g_suspend, Q, T)],
+        "C13" => vec![
+            f("suspend", "suspend, later scheduling calls, resume or drop of the resumer from any thread", g_suspend, Q * 3 / 4, T * 3 / 4),
+            f("suspend-saturated", "every pool thread stalled: one context suspends and resumes, others sync during the suspension and must complete after it", gen_suspend_saturated, Q / 4, T / 4),
+        ],
         _ => vec![],
     }
 }
